@@ -496,6 +496,16 @@ func ruleC15ValidateAll(c *Ctx) {
 						if tc := c2.Common().StaticCallee(); tc != nil && c.P.InPkg(tc) && c.callsSelf(tc) {
 							full = true
 						}
+						// a local recursive function (var walk func(...); walk = func(...) { ... walk(c) ... })
+						if c2.Common().StaticCallee() == nil && !c2.Common().IsInvoke() {
+							for _, src := range traceSources(c2.Common().Value) {
+								if mc, ok := src.(*ssa.MakeClosure); ok {
+									if target, isFn := mc.Fn.(*ssa.Function); isFn && isNested(f2, target) {
+										full = true // called from inside itself (possibly from the body of a loop in it)
+									}
+								}
+							}
+						}
 					}
 				})
 			}
